@@ -28,6 +28,8 @@ def r16_1(ctx):
         for n in ast.walk(fi.node):
             if isinstance(n, ast.Attribute) and n.attr == "code_format" and isinstance(n.ctx, ast.Load):
                 readers.add(fi.qual)
+            if isinstance(n, ast.Constant) and n.value == "code_format":
+                readers.add(fi.qual)  # getattr(x, "code_format") and friends
     exp = {"RZILTransformer.fbody", "RZILTransformer.emit_final_seq_return", "Compiler.set_il_op_transformer"}
     ctx.check("readers of code_format", readers == exp, str(sorted(exp)), str(sorted(readers)), "rzilcompiler/Transformer/RZILTransformer.py")
     names = {n.id for fi in idx.funcs.values() for n in ast.walk(fi.node) if isinstance(n, ast.Name) and n.id == "CodeFormat" and fi.qual not in exp | {"Compiler.__init__", "RZILTransformer.__init__"}}
